@@ -167,10 +167,14 @@ var cancelTimes = []int{0, 1, 3, 10, 30, 100, 250}
 // run through interp.DefaultExecHandler(t) for several kill timeouts t
 var execBases = []tmpl{
 	{kind: "exec_sleep", src: "sleep 30"},
-	{kind: "exec_sleep_ignores_int", src: `/bin/sh -c 'trap "" INT; sleep 30'`},
+	// one process that ignores SIGINT (exec: no grandchild): only SIGKILL ends it
+	{kind: "exec_sleep_ignores_int", src: `/bin/sh -c 'trap "" INT; exec sleep 30'`},
 	{kind: "exec_sleep_in_func_loop", src: "f() { while :; do sleep 30; done; }; f"},
-	{kind: "exec_sleep_ignores_int_in_subst", src: `x=$(/bin/sh -c 'trap "" INT; sleep 30'); echo $x`},
+	{kind: "exec_sleep_ignores_int_in_subst", src: `x=$(/bin/sh -c 'trap "" INT; exec sleep 30'); echo $x`},
 	{kind: "exec_sleep_bg_wait", src: "sleep 30 & wait"},
+	// the child forks a grandchild that inherits the (non-file) stdout and survives the killed child
+	{kind: "exec_grandchild_holds_pipe", src: `/bin/sh -c 'trap "" INT; sleep 30; :'`},
+	{kind: "exec_grandchild_holds_pipe_in_subst", src: `x=$(/bin/sh -c 'trap "" INT; sleep 30; :'); echo $x`},
 }
 var execKillMs = []int{-1, 0, 150, 2000}
 
@@ -227,7 +231,8 @@ func main() {
 		// real external children x kill timeouts (cancel after the child has surely started)
 		for i, t := range execBases {
 			for j, k := range execKillMs {
-				if (i+j+int(o.Seed))%2 == 0 || o.N > 200 {
+				// a child that only SIGKILL ends meets every kill timeout on every seed; the others rotate
+				if strings.HasPrefix(t.kind, "exec_sleep_ignores_int") || (i+j+int(o.Seed))%2 == 0 || o.N > 200 {
 					addExec(t, 150+50*((i+j)%3), k)
 				}
 			}
